@@ -216,6 +216,7 @@ def execOp (fs : Fs) (c : Cfg) : Op → Option Fs
     | some (_, .special k rdev) =>
       if fs.exists t then
         if c.noClobber then none
+        else if fs.sameFile s t then none            -- the same-file guard (special files)
         else match fs.unlink t with
           | .ok fs1 => (fs1.mknod t k rdev).toOption
           | .error _ => none
